@@ -77,4 +77,250 @@ theorem slice_bits (buf : Buf) (l r : Nat) (h : l ≤ r) :
     simp; omega
   · rw [if_neg hk]; simp; omega
 
+/-! ### Deserializer: bytes and unsigned -/
+
+/-- one byte assembled by the unaligned fetch loop -/
+theorem fetchByte_testBit (buf : Buf) (hw : WF buf) (off j : Nat) (hj : j < 8) :
+    (((getByte buf (off / 8)) >>> (off % 8)) |||
+      (((getByte buf (off / 8 + 1)) <<< (8 - off % 8)) &&& 0xFF)).testBit j = bitAt buf (off + j) := by
+  rw [Nat.testBit_or, Nat.testBit_shiftRight, testBit_and_255, Nat.testBit_shiftLeft]
+  by_cases h : off % 8 + j < 8
+  · have e : off + j = 8 * (off / 8) + (off % 8 + j) := by omega
+    rw [e, ← getByte_testBit _ _ _ h]
+    have : ¬ j ≥ 8 - off % 8 := by omega
+    simp [this]
+  · have e : off + j = 8 * (off / 8 + 1) + (j - (8 - off % 8)) := by omega
+    rw [e, ← getByte_testBit _ _ _ (by omega), getByte_testBit_ge buf hw _ _ (by omega)]
+    have : j ≥ 8 - off % 8 := by omega
+    simp [this, hj]
+
+theorem fetchByte_lt (x y l r : Nat) (hx : x < 256) : ((x >>> r) ||| ((y <<< l) &&& 0xFF)) < 256 := by
+  have h1 : x >>> r < 2 ^ 8 := Nat.lt_of_le_of_lt (Nat.shiftRight_le _ _) hx
+  have h2 : (y <<< l) &&& 0xFF < 2 ^ 8 := Nat.lt_of_le_of_lt Nat.and_le_right (by omega)
+  exact Nat.or_lt_two_pow h1 h2
+
+theorem fetchUnalignedLoop_spec (buf : Buf) (hw : WF buf) (n : Nat) : ∀ (off : Nat), off % 8 ≠ 0 →
+    (fetchUnalignedLoop buf (8 - off % 8) (off % 8) n off).length = n ∧
+    WF (fetchUnalignedLoop buf (8 - off % 8) (off % 8) n off) ∧
+    ∀ i, bitAt (fetchUnalignedLoop buf (8 - off % 8) (off % 8) n off) i
+      = (decide (i < 8 * n) && bitAt buf (off + i)) := by
+  induction n with
+  | zero => intro off _; simp [fetchUnalignedLoop, bitAt_nil, WF]
+  | succ n ih =>
+    intro off hr
+    have hmod : (off + 8) % 8 = off % 8 := by omega
+    obtain ⟨h1, h2, h3⟩ := ih (off + 8) (by omega)
+    rw [hmod] at h1 h2 h3
+    rw [fetchUnalignedLoop]
+    refine ⟨by simp [h1], ?_, ?_⟩
+    · intro x hx
+      rcases List.mem_cons.mp hx with e | e
+      · rw [e]; exact fetchByte_lt _ _ _ _ (getByte_lt buf hw _)
+      · exact h2 x e
+    · intro i
+      rw [bitAt_cons]
+      by_cases hi : i < 8
+      · rw [if_pos hi, fetchByte_testBit buf hw off i hi]
+        simp; omega
+      · rw [if_neg hi, h3]
+        have e : off + 8 + (i - 8) = off + i := by omega
+        rw [e]
+        by_cases h : i < 8 * (n + 1)
+        · simp [h, show i - 8 < 8 * n by omega]
+        · simp [h, show ¬ i - 8 < 8 * n by omega]
+
+theorem fetchAlignedBytes_spec (d : De) (count : Nat) (ha : d.off % 8 = 0) :
+    ∃ bs, fetchAlignedBytes d count = .ok (bs, ⟨d.buf, d.off + count * 8⟩) ∧ bs.length = count ∧
+      (WF d.buf → WF bs) ∧ ∀ i, bitAt bs i = (decide (i < 8 * count) && bitAt d.buf (d.off + i)) := by
+  obtain ⟨out, h1, h2, h3, h4⟩ := slice_bits d.buf (d.off / 8) (d.off / 8 + count) (by omega)
+  refine ⟨out, ?_, by omega, h3, fun i => ?_⟩
+  · simp [fetchAlignedBytes, assertAligned, ha, h1, bind, Except.bind]
+  · rw [h4, show d.off / 8 + count - d.off / 8 = count by omega, show 8 * (d.off / 8) = d.off by omega]
+
+/-- `fetch_unaligned_bytes`, every branch: never fails, returns `count` bytes holding the zero-extended bits
+from the cursor on, advances the cursor by `8·count`. -/
+theorem fetchUnalignedBytes_spec (d : De) (count : Nat) (hw : WF d.buf) :
+    ∃ bs, fetchUnalignedBytes d count = .ok (bs, ⟨d.buf, d.off + count * 8⟩) ∧ bs.length = count ∧ WF bs ∧
+      ∀ i, bitAt bs i = (decide (i < 8 * count) && bitAt d.buf (d.off + i)) := by
+  unfold fetchUnalignedBytes
+  by_cases hc : count > 0
+  · rw [if_pos hc]
+    by_cases hu : d.off % 8 ≠ 0
+    · rw [if_pos hu]
+      obtain ⟨h1, h2, h3⟩ := fetchUnalignedLoop_spec d.buf hw count d.off hu
+      exact ⟨_, rfl, h1, h2, h3⟩
+    · rw [if_neg hu]
+      obtain ⟨bs, h1, h2, h3, h4⟩ := fetchAlignedBytes_spec d count (by omega)
+      exact ⟨bs, h1, h2, h3 hw, h4⟩
+  · have : count = 0 := by omega
+    subst this
+    refine ⟨[], by simp, rfl, by simp [WF], fun i => by simp [bitAt_nil]⟩
+
+theorem fromBytesLoop_spec (x : Buf) (hw : WF x) (n : Nat) : ∀ (i : Nat), i + n ≤ x.length →
+    ∃ v, fromBytesLoop x n i = .ok v ∧
+      ∀ k, v.testBit k = (decide (8 * i ≤ k ∧ k < 8 * (i + n)) && bitAt x k) := by
+  induction n with
+  | zero => intro i _; exact ⟨0, rfl, fun k => by simp; omega⟩
+  | succ n ih =>
+    intro i hi
+    obtain ⟨v, hv, hb⟩ := ih (i + 1) (by omega)
+    have hlt : i < x.length := by omega
+    refine ⟨(x[i] <<< (i * 8)) ||| v, ?_, fun k => ?_⟩
+    · simp [fromBytesLoop, get?_ok hlt, hv, bind, Except.bind]
+    · rw [Nat.testBit_or, Nat.testBit_shiftLeft, hb]
+      by_cases h1 : 8 * i ≤ k ∧ k < 8 * (i + 1)
+      · have e1 : k / 8 = i := by omega
+        have e2 : k % 8 = k - i * 8 := by omega
+        have : ¬ (8 * (i + 1) ≤ k ∧ k < 8 * (i + 1 + n)) := by omega
+        have h3 : 8 * i ≤ k ∧ k < 8 * (i + (n + 1)) := by omega
+        simp [this, h3, bitAt, e1, e2, hlt, show k ≥ i * 8 by omega]
+      · by_cases h2 : k ≥ i * 8
+        · have : x[i].testBit (k - i * 8) = false := testBit_ge_of_lt_256 (WF_getElem hw hlt) (by omega)
+          simp only [h2, decide_true, Bool.true_and, this, Bool.false_or]
+          by_cases h3 : 8 * (i + 1) ≤ k ∧ k < 8 * (i + 1 + n)
+          · simp [h3, show 8 * i ≤ k ∧ k < 8 * (i + (n + 1)) by omega]
+          · simp [h3, show ¬ (8 * i ≤ k ∧ k < 8 * (i + (n + 1))) by omega]
+        · simp [h2, show ¬ (8 * (i + 1) ≤ k ∧ k < 8 * (i + 1 + n)) by omega,
+            show ¬ (8 * i ≤ k ∧ k < 8 * (i + (n + 1))) by omega]
+
+/-- `_unsigned_from_bytes`: the low `bitLength` bits of the byte string -/
+theorem unsignedFromBytes_spec (x : Buf) (bl : Nat) (hw : WF x) (hbl : 1 ≤ bl) (hlen : (bl + 7) / 8 ≤ x.length) :
+    unsignedFromBytes x bl = .ok (fieldOf (bitAt x) bl) := by
+  unfold unsignedFromBytes
+  rw [if_neg (by omega)]
+  dsimp only
+  rw [if_neg (by omega)]
+  generalize hlast : (bl + 7) / 8 - 1 = last
+  obtain ⟨low, hlow, hb⟩ := fromBytesLoop_spec x hw last 0 (by omega)
+  have hlt : last < x.length := by omega
+  simp only [hlow, get?_ok hlt, bind, Except.bind]
+  congr 1
+  apply Nat.eq_of_testBit_eq
+  intro k
+  rw [Nat.testBit_or, hb, Nat.testBit_shiftLeft, Nat.testBit_and, testBit_fieldOf]
+  by_cases h1 : k < 8 * last
+  · have : ¬ k ≥ last * 8 := by omega
+    simp [h1, this, show k < bl by omega]
+  · have h2 : k ≥ last * 8 := by omega
+    have hlow0 : ¬ (8 * 0 ≤ k ∧ k < 8 * (0 + last)) := by omega
+    simp only [hlow0, decide_false, Bool.false_and, Bool.false_or, h2, decide_true, Bool.true_and]
+    by_cases h3 : k - last * 8 < 8
+    · have e1 : k / 8 = last := by omega
+      have e2 : k % 8 = k - last * 8 := by omega
+      have hx : bitAt x k = x[last].testBit (k - last * 8) := by simp [bitAt, e1, e2, hlt]
+      rw [hx]
+      by_cases hm : bl % 8 ≠ 0
+      · rw [if_pos hm, Nat.testBit_two_pow_sub_one]
+        by_cases h4 : k < bl
+        · simp [h4, show k - last * 8 < bl % 8 by omega]
+        · simp [h4, show ¬ k - last * 8 < bl % 8 by omega]
+      · rw [if_neg hm, show (0xFF : Nat) = 2 ^ 8 - 1 from rfl, Nat.testBit_two_pow_sub_one]
+        simp [h3, show k < bl by omega]
+    · have : x[last].testBit (k - last * 8) = false := testBit_ge_of_lt_256 (WF_getElem hw hlt) (by omega)
+      simp [this, show ¬ k < bl by omega]
+
+
+/-! ### Deserializer: integers and bits -/
+
+theorem fieldOf_congr (f g : Nat → Bool) (n : Nat) (h : ∀ i, i < n → f i = g i) : fieldOf f n = fieldOf g n := by
+  apply Nat.eq_of_testBit_eq
+  intro i
+  rw [testBit_fieldOf, testBit_fieldOf]
+  by_cases hi : i < n
+  · simp [hi, h i hi]
+  · simp [hi]
+
+theorem fetchUnalignedUnsigned_spec (d : De) (bl : Nat) (hw : WF d.buf) (hbl : 1 ≤ bl) :
+    fetchUnalignedUnsigned d bl = .ok (deField d bl, ⟨d.buf, d.off + bl⟩) := by
+  unfold fetchUnalignedUnsigned
+  dsimp only
+  obtain ⟨bs, h1, h2, h3, h4⟩ := fetchUnalignedBytes_spec d ((bl + 7) / 8) hw
+  rw [h1]
+  simp only [bind, Except.bind, sub?, show bl ≤ (bl + 7) / 8 * 8 by omega, if_true,
+    show (bl + 7) / 8 * 8 - bl ≤ d.off + (bl + 7) / 8 * 8 by omega]
+  rw [unsignedFromBytes_spec bs bl h3 hbl (by omega)]
+  have e : d.off + (bl + 7) / 8 * 8 - ((bl + 7) / 8 * 8 - bl) = d.off + bl := by omega
+  rw [e]
+  have : fieldOf (bitAt bs) bl = deField d bl := by
+    apply fieldOf_congr
+    intro i hi
+    rw [h4]
+    simp [show i < 8 * ((bl + 7) / 8) by omega]
+  rw [this]
+
+theorem signOf_eq (u bl : Nat) (hbl : 1 ≤ bl) (hu : u < 2 ^ bl) :
+    signOf u bl = if u.testBit (bl - 1) then (u : Int) - 2 ^ bl else (u : Int) := by
+  unfold signOf
+  by_cases hb : u.testBit (bl - 1) = true
+  · have : u ≥ 2 ^ (bl - 1) := Nat.ge_two_pow_of_testBit hb
+    rw [if_pos this, if_pos hb]
+  · have hb' : u.testBit (bl - 1) = false := by cases h : u.testBit (bl - 1) <;> simp_all
+    have : u < 2 ^ (bl - 1) := by
+      apply Nat.lt_pow_two_of_testBit
+      intro i hi
+      by_cases e : i = bl - 1
+      · rw [e]; exact hb'
+      · exact Nat.testBit_lt_two_pow (Nat.lt_of_lt_of_le hu (Nat.pow_le_pow_right (by omega) (by omega)))
+    rw [if_neg (by omega), if_neg hb]
+
+theorem fetchUnalignedSigned_spec (d : De) (bl : Nat) (hw : WF d.buf) (hbl : 2 ≤ bl) :
+    fetchUnalignedSigned d bl = .ok
+      (if (deField d bl).testBit (bl - 1) then (deField d bl : Int) - 2 ^ bl else (deField d bl : Int),
+       ⟨d.buf, d.off + bl⟩) := by
+  unfold fetchUnalignedSigned
+  rw [if_neg (by omega), fetchUnalignedUnsigned_spec d bl hw (by omega)]
+  simp only [bind, Except.bind]
+  rw [signOf_eq _ bl (by omega) (by unfold deField; exact fieldOf_lt _ _)]
+
+theorem fetchUnalignedBit_spec (d : De) :
+    fetchUnalignedBit d = .ok (bitAt d.buf d.off, ⟨d.buf, d.off + 1⟩) := by
+  unfold fetchUnalignedBit
+  dsimp only
+  congr 2
+  have hj : d.off % 8 < 8 := Nat.mod_lt _ (by omega)
+  have hb : bitAt d.buf d.off = (getByte d.buf (d.off / 8)).testBit (d.off % 8) := by
+    rw [getByte_testBit _ _ _ hj]; congr 1; omega
+  rw [hb]
+  generalize getByte d.buf (d.off / 8) = x
+  generalize d.off % 8 = j
+  have h := and_two_pow_ne_zero x j
+  rw [Nat.one_shiftLeft] at *
+  cases hx : x.testBit j
+  · rw [hx] at h
+    have : x &&& 2 ^ j = 0 := by simpa using h
+    rw [this]
+    have : (0 : Nat) ≠ 2 ^ j := Nat.ne_of_lt (Nat.two_pow_pos j)
+    simp [this]
+  · have : x &&& 2 ^ j = 2 ^ j := by
+      apply Nat.eq_of_testBit_eq
+      intro i
+      rw [Nat.testBit_and, Nat.testBit_two_pow]
+      by_cases e : j = i
+      · subst e; simp [hx]
+      · simp [e]
+    rw [this]; simp
+
+theorem fetchAlignedUnsigned_spec (d : De) (bl : Nat) (hw : WF d.buf) (hbl : 1 ≤ bl) (ha : d.off % 8 = 0) :
+    fetchAlignedUnsigned d bl = .ok (deField d bl, ⟨d.buf, d.off + bl⟩) := by
+  unfold fetchAlignedUnsigned
+  obtain ⟨bs, h1, h2, h3, h4⟩ := slice_bits d.buf (d.off / 8) (d.off / 8 + (bl + 7) / 8) (by omega)
+  simp only [assertAligned, ha, if_true, h1, bind, Except.bind]
+  rw [unsignedFromBytes_spec bs bl (h3 hw) hbl (by omega)]
+  have : fieldOf (bitAt bs) bl = deField d bl := by
+    apply fieldOf_congr
+    intro i hi
+    rw [h4, show 8 * (d.off / 8) = d.off by omega]
+    simp; omega
+  rw [this]
+
+theorem fetchAlignedSigned_spec (d : De) (bl : Nat) (hw : WF d.buf) (hbl : 2 ≤ bl) (ha : d.off % 8 = 0) :
+    fetchAlignedSigned d bl = .ok
+      (if (deField d bl).testBit (bl - 1) then (deField d bl : Int) - 2 ^ bl else (deField d bl : Int),
+       ⟨d.buf, d.off + bl⟩) := by
+  unfold fetchAlignedSigned
+  rw [if_neg (by omega), fetchAlignedUnsigned_spec d bl hw (by omega) ha]
+  simp only [bind, Except.bind]
+  rw [signOf_eq _ bl (by omega) (by unfold deField; exact fieldOf_lt _ _)]
+
+
 end NunavutVerif.Bits.Py
